@@ -291,8 +291,9 @@ Section M.
   Lemma lift_normalises px py : on (Some (px, py)) ->
     lift px = Some (px, if negb (py mod 2 =? 0) then p - py else py).
   Proof.
-    intros Hon. destruct (lift px) as [[x y]|] eqn:El.
-    - destruct (cl_lift_some _ _ _ _ _ _ CL px (Some (x, y)) El ltac:(discriminate)) as (y0 & E & Hon' & Hev).
+    intros Hon. pose proof (proj1 (cl_coords _ _ _ _ _ _ CL px py Hon)) as [Hpx0 _].
+    destruct (lift px) as [[x y]|] eqn:El.
+    - destruct (cl_lift_some _ _ _ _ _ _ CL px (Some (x, y)) Hpx0 El ltac:(discriminate)) as (y0 & E & Hon' & Hev).
       injection E as -> ->.
       destruct (cl_x_det _ _ _ _ _ _ CL px py y0 Hon Hon') as [->| ->];
         pose proof (cl_coords _ _ _ _ _ _ CL px py Hon) as [_ Hy];
@@ -301,7 +302,7 @@ Section M.
         apply Z.eqb_eq in Hev; apply negb_true_iff, Z.eqb_neq in Hpo.
       + replace (py mod 2 =? 0) with true by lia. reflexivity.
       + replace (py mod 2 =? 0) with false by lia. reflexivity.
-    - exfalso. exact (cl_lift_none _ _ _ _ _ _ CL px El py Hon).
+    - exfalso. exact (cl_lift_none _ _ _ _ _ _ CL px Hpx0 El py Hon).
   Qed.
 
   Lemma calculate_tweak_proper pub t : proper t ->
